@@ -1,14 +1,14 @@
 (* Properties_C19.v — value semantics and allocator hygiene: the bookkeeping part (effect ledger).
    Statements only; proofs live in LedgerCoreProofs.v, LedgerKllProofs.v, LedgerTupProofs.v, LedgerProofs.v.
-   [reach o]: o is an object of one of the four modelled families (KLL items_, theta/tuple entries_, frequent-items
-   keys_/values_/states_, REQ compactor items_) produced by ANY history of construction, update, copy construction, copy assignment (incl.
+   [reach o]: o is an object of one of the six modelled families (KLL items_, theta/tuple entries_, frequent-items
+   keys_/values_/states_, REQ compactor items_, var_opt data_, the hll_sketch / hll_union-gadget impl blocks) produced by ANY history of construction, update, copy construction, copy assignment (incl.
    self-assignment), merge by reference / by move, reset, trim (LedgerProofs.reach).  The machine-level theorems
    (C19_step..., C19_run..., C19_destroy_all...) are about LedgerDefs.step / run themselves — the functions extracted
    and run against the C++ harness — for ANY script and ANY environment values (hashes), registers, moves, swaps and
    follow-ups included.  "aborted": the model reached one of its Abort outcomes at that step (a postcondition the C++
    relies on without checking — general_compress space bound, map resize/purge/iterator consistency — failed). *)
 From Coq Require Import ZArith NArith List Bool Lia.
-From DS Require Import RunnerLib LedgerCore LedgerCoreProofs LedgerKll LedgerKllProofs LedgerTup LedgerTupProofs LedgerFi LedgerFiProofs LedgerReq LedgerReqProofs LedgerVo LedgerVoProofs LedgerDefs LedgerProofs LedgerMachineProofs.
+From DS Require Import RunnerLib LedgerCore LedgerCoreProofs LedgerKll LedgerKllProofs LedgerTup LedgerTupProofs LedgerFi LedgerFiProofs LedgerReq LedgerReqProofs LedgerVo LedgerVoProofs LedgerHll LedgerHllProofs LedgerDefs LedgerProofs LedgerMachineProofs.
 Import ListNotations.
 Local Open Scope Z_scope.
 
@@ -54,19 +54,19 @@ Proof. intros o c bad H E. exact (proj2 (obj_copy_ok o c bad (reach_inv o H) E))
 Theorem C19_copy_assign_accepted : forall r s o' bad, reach r -> reach s -> obj_copy_assign r s = Some (o', bad) -> bad = false.
 Proof. intros r s o' bad Hr Hs E. exact (proj2 (obj_copy_assign_ok r s o' bad (reach_inv r Hr) (reach_inv s Hs) E)). Qed.
 
-Theorem C19_reset_trim_accepted : forall o o' bad, reach o -> (obj_reset o = Some (o', bad) \/ obj_trim o = Some (o', bad)) -> bad = false.
+Theorem C19_reset_trim_accepted : forall o e o' bad, reach o -> (obj_reset o e = Some (o', bad) \/ obj_trim o = Some (o', bad)) -> bad = false.
 Proof.
-  intros o o' bad H [E|E].
-  - exact (proj2 (obj_reset_ok o o' bad (reach_inv o H) E)).
+  intros o e o' bad H [E|E].
+  - exact (proj2 (obj_reset_ok o e o' bad (reach_inv o H) E)).
   - exact (proj2 (obj_trim_ok o o' bad (reach_inv o H) E)).
 Qed.
 
 (* merge by reference or by move: accepted; a flag can only come from the model outcome Abort (a violated
    postcondition of general_compress: in the C++ that is an out-of-bounds access, outside what a ledger can judge) *)
-Theorem C19_merge_accepted : forall r s u, reach r -> reach s -> obj_merge r s = Some u ->
+Theorem C19_merge_accepted : forall r s e u, reach r -> reach s -> obj_merge r s e = Some u ->
   match u with UDone _ bad => bad = false | URefused _ bad => bad = false \/ merge_aborts r s end.
 Proof.
-  intros r s u Hr Hs E. pose proof (obj_merge_ok r s u (reach_inv r Hr) (reach_inv s Hs) E) as H.
+  intros r s e u Hr Hs E. pose proof (obj_merge_ok r s e u (reach_inv r Hr) (reach_inv s Hs) E) as H.
   destruct u; tauto.
 Qed.
 
